@@ -361,7 +361,22 @@ func (c *paramsScript) endBlockC17() {
 
 // ledgers: any monitor of another property that fired in this history
 func (c *paramsScript) ledgers() {
+	// a bet whose stake is zero (amount = fee, possible when Fee = MinAmount) leaves a fulfilment of amount 0 behind;
+	// the C04 monitor of the core suite takes "a fulfilment names the participation" for "the participation received
+	// stake", the code and the property ask for stake > 0: its fee-routing alarm is not a ledger fault in that corner
+	zeroStake := false
+	for _, b := range dumpCore(c.e, c.ix).bets {
+		for _, f := range b.BetFulfillment {
+			if f.BetAmount.IsZero() {
+				zeroStake = true
+			}
+		}
+	}
 	for _, mf := range c.out.Mon[c.monStart:] {
+		if mf.Property == "C04" && mf.Monitor == "payout_amounts" && zeroStake {
+			c.out.Count("diag.ledgers.c04-fee-routing-of-zero-stake-fulfilment")
+			continue
+		}
 		if mf.Property != "C17" {
 			cls := mf.Class
 			if mf.Property == "C03" && (mf.Monitor == "taken_le_requested" || mf.Monitor == "profit_exact") &&
